@@ -23,6 +23,15 @@ var keyKinds = []keyKind{
 	{name: "int", typ: "int", mk: "i*7 - 300", idx: "r = (k + 300) / 7"},
 	{name: "i64", typ: "i64", mk: "i64(i)*1000003 - 5000000000", idx: "r = int((k + 5000000000) / 1000003)"},
 	{name: "u8", typ: "u8", mk: "u8(i % 256)", idx: "r = int(k)"},
+	// keys spread over the whole range of the type (differences overflow the type)
+	{name: "int_spread", typ: "int", mk: "int(u32(i) * 2654435761)", idx: "r = int(u32(k) * 244002641)"},
+	{name: "u32_spread", typ: "u32", mk: "u32(i) * 2654435761", idx: "r = int(k * 244002641)"},
+	{name: "i64_spread", typ: "i64", mk: "i64(u64(i) * 11400714819323198485)", idx: "r = int(u64(k) * 17428512612931826493)"},
+	{name: "u64_spread", typ: "u64", mk: "u64(i) * 11400714819323198485", idx: "r = int(k * 17428512612931826493)"},
+	{name: "u16", typ: "u16", mk: "u16(i * 31)", idx: "r = int(k) / 31"},
+	{name: "f64_wide", typ: "f64", mk: "(f64(i) - 1000) * 1.0e305", idx: "r = int(k/1.0e305 + 1000.5)"},
+	{name: "struct_spread", typ: "SP", mk: `SP{a: int(u32(i) * 2654435761), b: i64(u64(i) * 11400714819323198485)}`, idx: "r = int(u32(k.a) * 244002641)",
+		decls: "type SP :struct {\n\ta: int\n\tb: i64\n}\n"},
 	{name: "string", typ: "string", mk: `"k" + itoa(i*13)`, idx: "r = atoi(k[1:]) / 13"},
 	{name: "f64", typ: "f64", mk: "fkey(i)", idx: "r = fidx(k)",
 		decls: `
